@@ -442,6 +442,17 @@ func (x *Exec) lvalueAddr(env *Env, e CExpr) (string, types.Type) {
 		if sl, ok := v.T.Underlying().(*types.Slice); ok {
 			return app("selem", v.S, env.trI(n.I)), sl.Elem()
 		}
+	case *CIdent:
+		// a local variable that lives in the heap (its address is taken somewhere)
+		if env.fr != nil && env.st != nil {
+			lst := env.st
+			if env.cur != nil {
+				lst = env.cur
+			}
+			if a, t, ok := x.localAddrByName(lst, env.fr, n.Name); ok {
+				return a, t
+			}
+		}
 	}
 	cfail("unsupported modifies entry")
 	return "", nil
@@ -484,7 +495,7 @@ func (x *Exec) havocModifies(st *State, env *Env, fc *FuncContract, key string) 
 			for name := range comps {
 				cur := st.heap[name]
 				if cur == "" {
-					_, cur = x.w.comp(st, x.w.compSorts[name])
+					cur = x.w.compByName(st, name)
 				}
 				nv := x.g.fresh(name, "(Array Addr "+x.w.compSorts[name]+")")
 				st.heap[name] = nv
@@ -851,7 +862,7 @@ func (x *Exec) appendBuiltin(st *State, c *ssa.CallCommon, args []Val) Val {
 		default:
 			// the fresh backing array is assumed to hold the contents already (allocation as assumption); the
 			// facts are phrased over selem(result, j) so that their patterns match element reads of the result
-			_, cur := x.w.comp(st, x.w.sortOf(t2))
+			_, cur := x.w.comp(st, x.w.compKey(t2))
 			dst := mk(app("selem", r, "k!a"))
 			st.assume(fmt.Sprintf("(forall ((k!a Int)) (! (=> (and (<= 0 k!a) (< k!a (slen %s))) (= (select %s %s) (select %s %s))) :pattern ((select %s %s))))",
 				s.S, cur, dst, cur, mk(app("selem", s.S, "k!a")), cur, dst))
@@ -886,7 +897,7 @@ func (x *Exec) copyBuiltin(st *State, c *ssa.CallCommon, args []Val) Val {
 		unsup("copy of struct elements")
 	}
 	for name := range comps {
-		_, cur := x.w.comp(st, x.w.compSorts[name])
+		cur := x.w.compByName(st, name)
 		nv := x.g.fresh(name, "(Array Addr "+x.w.compSorts[name]+")")
 		st.heap[name] = nv
 		st.assume(fmt.Sprintf("(forall ((p!z Addr)) (! (=> (not (= (oid p!z) (oid (sarr %s)))) (= (select %s p!z) (select %s p!z))) :pattern ((select %s p!z))))", dst.S, nv, cur, nv))
